@@ -2,6 +2,7 @@ import PrimaiteModel.Model.C13Wire
 import PrimaiteModel.Model.C13Recv
 import PrimaiteModel.Model.C13Bots
 import PrimaiteModel.Model.C13C2
+import PrimaiteModel.Gen.SoftwareRelay
 open Primaite Primaite.Lifecycle Primaite.Registries Primaite.Recv
 
 /-! Line-protocol driver for the receive-path / payload model (C13, round 3): two nodes `A` and `B` with class data and an
@@ -291,8 +292,42 @@ def c2Step (ws : List String) : String :=
     | _, _ => "bad-op"
   | _ => "bad-op"
 
+open Primaite.Relay in
+/-- the TRANSLATED `receive` / `send` chains (Gen/SoftwareRelay) run on the environment the rig observed at a real call (stateless):
+`relay names <recv|send> <Class>` lists the payload tests, callee names and type names of the chain (the order of the bit strings);
+`relay <recv|send> <Class> <canAct> <types true, comma separated | -> <test bits> <callee result bits>` gives the return value and the
+method-call effects (attribute writes and untranslated statements are not listed) -/
+def relayStep (ws : List String) : String :=
+  let tableOf (kind : String) := if kind = "recv" then Gen.SoftwareRelay.receiveChains else Gen.SoftwareRelay.sendChains
+  let stmtsOf (x : String × List (String × List Stmt)) : List Stmt := (x.2.map (·.2)).flatten
+  let condNames (l : List Stmt) : List String :=
+    (l.filterMap fun s => match s with | .retIf c _ => some c | .retEffIf c _ => some c | .doIf c _ => some c | _ => none).eraseDups
+  let resNames (l : List Stmt) : List String :=
+    (l.filterMap fun s => match s with | .retEffIf _ e => some e | .retEff e => some e | _ => none).eraseDups
+  let typeNames (l : List Stmt) : List String := (l.filterMap fun s => match s with | .typeCheck c => some c | _ => none).eraseDups
+  let bit (names : List String) (bits : String) (c : String) : Bool := (bits.toList.getD (names.idxOf c) '0') == '1'
+  match ws with
+  | ["names", kind, cls] =>
+    match (tableOf kind).find? (·.1 == cls) with
+    | some x =>
+      let l := stmtsOf x
+      ";;".intercalate (condNames l) ++ "||" ++ ";;".intercalate (resNames l) ++ "||" ++ ";;".intercalate (typeNames l)
+    | none => "no-such-class"
+  | [kind, cls, can, types, conds, ress] =>
+    match (tableOf kind).find? (·.1 == cls), parseBool can with
+    | some x, some can =>
+      let l := stmtsOf x
+      let tys := if types = "-" then [] else types.splitOn ","
+      let env : Env := { canAct := can, isType := fun c => tys.contains c, cond := bit (condNames l) conds, res := bit (resNames l) ress }
+      let (r, effs) := runChain env (x.2.map (·.2))
+      let calls := effs.filter fun e => !(e.startsWith "stmt:") && !(e.startsWith "set:") && !(e.startsWith "expr:")
+      s!"ret={showBool r} effs={if calls.isEmpty then "-" else ",".intercalate calls}"
+    | _, _ => "bad-op"
+  | _ => "bad-op"
+
 def step (st : St) (ws : List String) : St × String :=
   match ws with
+  | "relay" :: rest => (st, relayStep rest)
   | "bot" :: rest => (st, botStep rest)
   | "c2" :: rest => (st, c2Step rest)
   | "conn" :: rest => let (c', o) := connStep st.c rest; ({ st with c := c' }, o)
